@@ -113,6 +113,15 @@ CHECKS = {
  "C23": ("exploration", "twin run encrypted vs plain + on-disk plaintext scan (needles) + IV-uniqueness monitor on a hook + wrong-key opens with tree hash + rotate command",
          "Pre-drawn scripts on AES-128/192/256 databases with data-key rotation 1 ms..10 days vs the same script on a plain database (identical reads, equal to the model); 12-byte needles of every value/long key searched in every file at mid-run copies, after close and after re-open; hook-logged (data key id, IV) pairs never repeat; different key / no key / key on plain DB refused with ErrEncryptionKeyMismatch without changing files; old data keys readable after re-open; master-key rotation through the built badger rotate command.",
          "Needle collisions negligible; compression off; crash-time scans belong to the crash engine.", "4/C23"),
+ "C34": ("exploration", "shadow-counter monitor on the real y.WaterMark + hook-fed in-flight-commit monitor inside the oracle lock + read oracle; delay injection; race detector (reports in y/watermark.go or the oracle are violations)",
+         "(i) y.WaterMark driven by 4-16 goroutines under badger's usage contract with shadow counters and an observer around DoneUntil(): no index <= DoneUntil may have more returned Begins than started Dones, waiters return only once DoneUntil >= index and are never stranded; (ii) recorded histories of many small commits and transaction starts with delays at commit.afterTs / write.afterVlog / commit.beforeDone / readts.beforeWait: no read timestamp granted while a commit at or below it is in flight, every transaction sees all commits <= its read timestamp; (iii) stop behaviour: after the closer is signalled no Begin/Done/WaitForMark blocks.",
+         "Bounded: interleavings come from contention and injected yields, not from exhaustive enumeration; lost wake-up judged by state (everything done, waiter still blocked), not by a bare timeout.", "4/C34"),
+ "C35": ("exploration", "process-level monitor: coordinator + child processes + in-process actors against an flock reference model",
+         "3 child processes and 2 in-process actors run PRNG-chosen sequences of open-read-write / open-read-only / close on databases with shared, separate and half-shared Dir/ValueDir, plus racing read-write opens released together; every outcome is compared with the flock model (read-write iff no holder of either directory, read-only iff no read-write holder, at most one racer wins, Close releases).",
+         "Linux flock semantics; BypassLockGuard is outside the claim.", "4/C35"),
+ "C38": ("exploration", "stress workload with call tracker + state-based no-progress detector (two goroutine dumps + completed-call counter); delay injection; race detector",
+         "2-4 compactors, 16 KiB memtables, L0 stall at 2-3 tables; 6 committers (Commit/CommitWith), 3 readers/iterators, a WriteBatch flusher and a maintenance goroutine (RunValueLogGC, DropPrefix, DropAll, Flatten, Subscribe+cancel) run with delays at flush/compaction/drop points, then Close is called while committers keep committing; a call older than 45 s starts the analysis: unchanged blocked badger stacks and no completed call over 8 s = violation with the dump as witness, otherwise inconclusive; a panic inside badger raised by a public call is a violation.",
+         "Liveness restated as bounded progress; readers are excluded while DropAll runs (documented precondition of DropAll); StreamWriter is exercised in C26.", "4/C38"),
 }
 
 def hooks_commits():
